@@ -364,10 +364,12 @@ type codeBlock struct {
 	LastLine       int
 	labels         map[string]*gotoLabelDesc
 	firstGotoIndex int
+	// positions in Proto.DbgLocals of the variables declared in this block
+	dbgLocals []int
 }
 
 func newCodeBlock(localvars *varNamePool, blabel int, parent *codeBlock, pos ast.PositionHolder, firstGotoIndex int) *codeBlock {
-	bl := &codeBlock{localvars, blabel, parent, false, 0, 0, map[string]*gotoLabelDesc{}, firstGotoIndex}
+	bl := &codeBlock{localvars, blabel, parent, false, 0, 0, map[string]*gotoLabelDesc{}, firstGotoIndex, nil}
 	if pos != nil {
 		bl.LineStart = pos.Line()
 		bl.LastLine = pos.LastLine()
@@ -564,6 +566,7 @@ func (fc *funcContext) BlockLocalVarsCount() int {
 func (fc *funcContext) RegisterLocalVar(name string) int {
 	ret := fc.Block.LocalVars.Register(name)
 	fc.Proto.DbgLocals = append(fc.Proto.DbgLocals, &DbgLocalInfo{Name: name, StartPc: fc.Code.LastPC() + 1})
+	fc.Block.dbgLocals = append(fc.Block.dbgLocals, len(fc.Proto.DbgLocals)-1)
 	fc.SetRegTop(fc.RegTop() + 1)
 	return ret
 }
@@ -617,8 +620,10 @@ func (fc *funcContext) LeaveBlock() int {
 }
 
 func (fc *funcContext) EndScope() {
-	for _, vr := range fc.Block.LocalVars.List() {
-		fc.Proto.DbgLocals[vr.Index].EndPc = fc.Code.LastPC()
+	// DbgLocals is in declaration order; a register index is not a position
+	// in it once an earlier block's registers have been reused
+	for _, i := range fc.Block.dbgLocals {
+		fc.Proto.DbgLocals[i].EndPc = fc.Code.LastPC()
 	}
 }
 
